@@ -41,14 +41,17 @@ CHECKS = {
          "Threads with different chunk sizes (1 and >1) call for_each/enumerate_for_each/fold; closure invocations recorded per element.", "DESIGN §4 C12", TRUST),
  "C18": (True, "sched", "fault_enumeration", "fault injection (panic at the k-th probe next / clone / closure invocation) under generated schedules, hang + duplicate + ledger oracles",
          "Crash point k enumerated over 0..len+1 by the generator for three fault sites, under generated schedules.", "DESIGN §4 C18", TRUST),
+ "C15": (True, "plain", "exploration", "property-based testing with a gated counting global allocator (allocation-balance oracle), sequential and after real-thread concurrent use",
+         "Whole cases (construction, operations, terminal, dropping everything) run inside a per-thread allocation gate, twice; balance of bytes and blocks must be exactly zero.", "DESIGN §4 C15", TRUST_SEQ + " Only allocations through the global allocator are visible."),
+ "C16": (True, "plain", "exploration", "exhaustive enumeration of the boundary grid plus generated neighbours, u128 reference-model oracle, differential execution in both overflow modes",
+         "The quantifier's grid (extreme ranges x chunk sizes x tails) is enumerated completely and judged by the mathematical cursor model in-process and in two separately compiled processes (overflow checks on/off).", "DESIGN §4 C16", TRUST_SEQ),
+ "C17": (True, "plain", "exploration", "differential testing of two compilations (debug-assertions+overflow-checks on/off) over generated histories; std ub_checks as precondition oracle",
+         "The same generated histories are executed by twin processes built from the same sources; transcripts must be identical; an abort in one twin is a violation.", "DESIGN §4 C17", TRUST_SEQ),
 }
 
 NOT_YET = {
  "C13": "check not built yet (planned: E2 lock-step adaptor vs underlying iterator)",
  "C14": "check not built yet (planned: generated client programs judged by rustc + safe low-level call sequences)",
- "C15": "check not built yet (planned: gated counting allocator)",
- "C16": "check not built yet (planned: boundary grid in both overflow modes)",
- "C17": "check not built yet (planned: debug/release twin transcripts)",
  "C19": "check not built yet (planned: several iterators over one collection)",
 }
 
